@@ -179,6 +179,13 @@ public:
 	outfile.close();
 	if (!ok)
 	  return false;
+	if (!outfile)
+	  {
+	    // The data may only have been written out by close().
+	    std::cerr << output_body_file << ": "
+		      << strerror(errno) << "\n";
+	    return false;
+	  }
 	const string inf_file_name = output_body_file + ".inf";
 	if (!create_inf_file(inf_file_name, crc.get(), entry))
 	  {
